@@ -5,7 +5,9 @@ HERE = os.path.dirname(os.path.dirname(os.path.abspath(__file__)))
 
 TRUST = ("Trusted: go/types + go/ssa (x/tools v0.29.0) and the checker's own engines (each rule is exercised both ways by "
          "/verif/mutants and /verif/seeded). Decides the structural clauses named in level_claimed.text, not the run-time behaviour; "
-         "clauses listed as 'not covered' in DESIGN.md section 5 are outside this check.")
+         "clauses listed as 'not covered' in DESIGN.md section 5 are outside this check. Obligations added after the seeded and "
+         "benign rounds (who-may-write / every-path clauses, rules imported from sibling properties and decided on the same tree) "
+         "are listed in DESIGN.md section 8 and, with their counts, in the rule list of each evidence file.")
 
 # id -> (technique, claim text, design ref)   — only properties whose check exists
 CLAIMED = {
